@@ -4,6 +4,7 @@ import (
 	"bytes"
 	"encoding/json"
 	"fmt"
+	"os"
 	"regexp"
 	"runtime/debug"
 	"strings"
@@ -12,6 +13,8 @@ import (
 	"github.com/caddyserver/caddy/v2"
 	"github.com/caddyserver/caddy/v2/caddyconfig/caddyfile"
 	"github.com/caddyserver/caddy/v2/caddyconfig/httpcaddyfile"
+
+	"verif/harness/internal/core"
 )
 
 // adaptTimeout bounds one adaptation (the totality clause: "never a crash or hang").
@@ -19,6 +22,7 @@ var adaptTimeout = 10 * time.Second
 
 type adaptRes struct {
 	json     []byte
+	warn     string // the adapter's warnings, in the order returned (observed only: the property speaks of the JSON)
 	err      error
 	panicked bool
 	panicMsg string
@@ -85,11 +89,53 @@ func panicSite(stack string) string {
 
 // adaptText is the real adapter as `caddy adapt` / POST /load (text/caddyfile) use it.
 func adaptText(text string) adaptRes {
-	return guarded(func() ([]byte, error) {
+	return adaptTextOpts(text, map[string]any{"filename": "Caddyfile"})
+}
+
+// adaptTextLoad is the adapter as POST /load calls it (caddyconfig/load.go adaptByContentType): no options at all.
+func adaptTextLoad(text string) adaptRes { return adaptTextOpts(text, nil) }
+
+func adaptTextOpts(text string, opts map[string]any) adaptRes {
+	var warn string
+	r := guarded(func() ([]byte, error) {
 		ad := caddyfile.Adapter{ServerType: httpcaddyfile.ServerType{}}
-		b, _, err := ad.Adapt([]byte(text), map[string]any{"filename": "Caddyfile"})
+		b, ws, err := ad.Adapt([]byte(text), opts)
+		var sb strings.Builder
+		for _, w := range ws {
+			fmt.Fprintf(&sb, "%s:%d:%s:%s\n", w.File, w.Line, w.Directive, w.Message)
+		}
+		warn = sb.String()
 		return b, err
 	})
+	if !r.timedOut {
+		r.warn = warn
+	}
+	return r
+}
+
+// sideOutputTags compares what the adapter returns BESIDE the JSON between two adaptations of one text: the list of
+// warnings and the text of the error.  The property speaks of the JSON only, so a difference is a tag, not a failure.
+func sideOutputTags(a, b adaptRes, o *core.Outcome) {
+	add := func(t string) {
+		for _, x := range o.Tags {
+			if x == t {
+				return
+			}
+		}
+		o.Tags = append(o.Tags, t)
+	}
+	if a.accepted() && b.accepted() && a.warn != b.warn {
+		add("observed:warnings-vary-between-adaptations")
+	}
+	if a.err != nil && b.err != nil && a.err.Error() != b.err.Error() {
+		add("observed:error-text-varies-between-adaptations")
+		if p := os.Getenv("C16_OBS_LOG"); p != "" { // debugging aid: where to write the two messages
+			if fh, err := os.OpenFile(p, os.O_APPEND|os.O_CREATE|os.O_WRONLY, 0o644); err == nil {
+				fmt.Fprintf(fh, "A: %v\nB: %v\n\n", a.err, b.err)
+				fh.Close()
+			}
+		}
+	}
 }
 
 // adaptBlocks is Adapter.Adapt after its Parse step: Setup + json.Marshal.
